@@ -15,6 +15,7 @@ import ast
 import itertools
 import os
 import re
+import struct as _struct
 import typing as t
 
 from .facts import AnalysisError, ClassInfo, FuncInfo, Program, dotted
@@ -341,6 +342,22 @@ def baseline_functions() -> t.FrozenSet[str]:
     return _BASELINE
 
 
+_BASELINE_CLASSES = None
+
+
+def baseline_classes() -> t.FrozenSet[str]:
+    """qualified names of the classes of the tree the rules were written against (tools/mkbaseline.py)"""
+    global _BASELINE_CLASSES
+    if _BASELINE_CLASSES is None:
+        path = os.path.join(os.path.dirname(os.path.abspath(__file__)), "baseline_classes.txt")
+        try:
+            with open(path) as fh:
+                _BASELINE_CLASSES = frozenset(l.strip() for l in fh if l.strip())
+        except OSError as exc:
+            raise AnalysisError(f"baseline class list missing: {exc}")
+    return _BASELINE_CLASSES
+
+
 def _immutable_literal(node) -> bool:
     """tuple display whose elements are constants, dotted names (enum members) or such tuples"""
     if isinstance(node, ast.Tuple):
@@ -494,6 +511,7 @@ class Typer:
     def __init__(self, prog: Program):
         self.prog = prog
         self._attr_cache: t.Dict = {}
+        self._alias_active: t.Set[str] = set()
 
     def ann_type(self, ann, mi) -> t.Optional[tuple]:
         if ann is None:
@@ -538,7 +556,14 @@ class Typer:
         q = self.prog.resolve_class_name(mi, name)
         if q:
             return ("cls", q)
-        # module level type aliases such as _T_SOCKADDR are not classes
+        # a module level type alias  _T_X = typing.Collection[Y]  stands for its value
+        if "." not in name and name in mi.consts and name not in mi.rebound and name not in self._alias_active \
+                and isinstance(mi.consts[name], (ast.Subscript, ast.Attribute)):
+            self._alias_active.add(name)
+            try:
+                return self.ann_type(mi.consts[name], mi)
+            finally:
+                self._alias_active.discard(name)
         return None
 
     def attr_type(self, clsqual: str, attr: str) -> t.Optional[tuple]:
@@ -730,6 +755,7 @@ class Engine:
         self._closures: t.Dict[int, t.Tuple[FuncInfo, t.Dict]] = {}
         self._budget = 0
         self._nt_terms: t.Dict[tuple, str] = {}
+        self._const_active: t.Set[tuple] = set()
         self._nt_unique: t.Dict[str, t.Tuple[str, int]] = _unique_namedtuple_fields(prog)
 
     # ------------------------------------------------------------------ helpers
@@ -1453,12 +1479,39 @@ class Engine:
                 if self._cond_term(x, s, ch, stmt, fi):
                     return True
             return False
+        if c[0] == "cmp" and c[1] in ("==", "!=") and c[2][0] == "tuple" and c[3][0] == "tuple" and len(c[2][1]) == len(c[3][1]) \
+                and len(c[2][1]) > 1 and not any(x[0] == "starred" for x in c[2][1] + c[3][1]):
+            # (a, b, ..) == (A, B, ..): elementwise, left to right, stopping at the first difference
+            eq = True
+            for x, y in zip(c[2][1], c[3][1]):
+                if not self._cond_term(fold_cmp("==", x, y), s, ch, stmt, fi):
+                    eq = False
+                    break
+            return eq if c[1] == "==" else not eq
         tv = self._decide(c, s)
         if tv is None:
             tv = ch.choose(2) == 0
             s.conds.append((c, tv, stmt, fi))
             self._learn(c, tv, s)
         return tv
+
+    def _table_lookup(self, table, key, s: _State, ch, node, fi):
+        """TABLE[key] / TABLE.get(key) on a dict display with distinct constant keys (a dispatch table): the lookup is the
+        if/elif chain `key == K1 -> V1, key == K2 -> V2, ...`; one path per key (the decisions are recorded like those of
+        the chain) and one on which no key matches (result None here: the caller supplies default / KeyError)"""
+        if table[0] != "dict" or not table[1] or len(table[1]) > 12 or s.env.get("$incomp"):
+            return None
+        keys = [k for k, _ in table[1]]
+        if not all(is_const(k) for k in keys) or len({repr(k[1]) for k in keys}) != len(keys):
+            return None
+        for k, v in table[1]:
+            if is_const(key):
+                if key == k:
+                    return v
+                continue
+            if self._cond_term(fold_cmp("==", key, k), s, ch, node, fi):
+                return v
+        return None
 
     def _decide(self, c, s: _State) -> t.Optional[bool]:
         tv = truthy(c)
@@ -1607,6 +1660,9 @@ class Engine:
                 return base[1][idx[1]]
             if base[0] == "ext" or base[0] == "cls":
                 return base  # typing subscripts such as EndpointOption[Any]
+            hit = self._table_lookup(base, idx, s, ch, node, fi)
+            if hit is not None:
+                return hit
             e = self._event("load", node, fi, depth, s)
             e.target = ("item", base, idx)
             self._raise_point(e, s, ch, node)
@@ -1779,6 +1835,21 @@ class Engine:
                 v = self._eval_in_module(node, mi)
                 if v[0] != "unknown":
                     return v
+            if isinstance(node, (ast.BinOp, ast.UnaryOp, ast.Attribute, ast.Name, ast.Call)) and g[2] not in mi.rebound \
+                    and (g[1], g[2]) not in self._const_active:
+                # a constant computed from other constants (sizes, masks), or a precompiled struct.Struct
+                self._const_active.add((g[1], g[2]))
+                try:
+                    v = self._eval_in_module(node, mi)
+                finally:
+                    self._const_active.discard((g[1], g[2]))
+                if is_const(v) and isinstance(v[1], (int, str, bytes)) and not isinstance(v[1], EnumVal):
+                    return v
+                if v[0] == "call" and v[1] == ("ext", "struct.Struct") and len(v[2]) == 1 and is_const(v[2][0]) \
+                        and isinstance(v[2][0][1], str) and not v[3]:
+                    return v
+                if v[0] == "cls" and isinstance(node, (ast.Attribute, ast.Name)):
+                    return v  # a private alias of a class
             return ("attr", ("mod", g[1]), g[2])
         if g[0] == "classattr":
             em = enum_members(self.prog, g[1])
@@ -1836,6 +1907,12 @@ class Engine:
                     return ev_.result
                 return ("bound", base, m.qual)
         tag = base[0]
+        if tag == "call" and attr == "size" and base[1] == ("ext", "struct.Struct") and len(base[2]) == 1 and is_const(base[2][0]) \
+                and isinstance(base[2][0][1], str) and not base[3]:
+            try:
+                return const(_struct.calcsize(base[2][0][1]))
+            except _struct.error:
+                pass
         if tag == "mod":
             if base[1] == "":
                 if attr in self.prog.modules:
@@ -2011,7 +2088,7 @@ class Engine:
                 s.env.update(saved)
                 return ({"list": "list", "set": "set", "gen": "tuple"}[kind], tuple(out))
         if kind == "list" and len(node.generators) == 1 and not node.generators[0].is_async \
-                and _filter_calls_element_method(node.generators[0]):
+                and (_filter_calls_element_method(node.generators[0]) or self._calls_branching_helper(node.elt, fi)):
             return self._comp_as_loop(node, s, fi, depth, ch, saved)
         s.env["$incomp"] = True
         for gi, g in enumerate(node.generators):
@@ -2029,6 +2106,28 @@ class Engine:
         s.env.clear()
         s.env.update(saved)
         return ("comp", kind, elt, tuple(gens), self.site(node, fi, s))
+
+    def _calls_branching_helper(self, expr, fi: FuncInfo) -> bool:
+        """does `expr` call a function the rules were not written against (an extracted helper)?  What it does and decides
+        is per element: the comprehension is enumerated like the loop it abbreviates (per iteration events)."""
+        if not self.policy.transparent_helpers:
+            return False
+        for n in ast.walk(expr):
+            if not isinstance(n, ast.Call):
+                continue
+            callee = None
+            if isinstance(n.func, ast.Name) and getattr(fi, "module", None) is not None:
+                g = self.prog.resolve_global(fi.module, n.func.id)
+                if g and g[0] == "func":
+                    callee = self.prog.functions.get(g[1])
+            elif isinstance(n.func, ast.Attribute) and isinstance(n.func.value, ast.Name) and n.func.value.id in ("self", "cls"):
+                c = fi.cls if fi.cls is not None else (fi.parent.cls if getattr(fi, "parent", None) is not None else None)
+                if c is not None:
+                    callee = self.prog.lookup_method(c.qual, n.func.attr)
+            if callee is None or not self.is_unknown_helper(callee):
+                continue
+            return True
+        return False
 
     def _comp_as_loop(self, node, s: _State, fi, depth, ch, saved):
         """[ELT for T in IT if COND] where COND asks the element itself (a method call on T): enumerated like the
@@ -2115,6 +2214,23 @@ class Engine:
         if f[0] == "attr" and f[2] == "_asdict" and not args and not kwargs and f[1][0] == "tuple" and f[1] in self._nt_terms:
             names = [fl.name for fl in self.prog.all_fields(self._nt_terms[f[1]])]
             return ("dict", tuple((const(n), v) for n, v in zip(names, f[1][1])))
+        if f[0] == "attr" and f[2] == "get" and f[1][0] == "dict" and 1 <= len(args) <= 2 and not kwargs and f[1][1] \
+                and all(is_const(k) for k, _ in f[1][1]) and not s.env.get("$incomp") and len(f[1][1]) <= 12:
+            hit = self._table_lookup(f[1], args[0], s, ch, node, fi)
+            if hit is not None:
+                return hit
+            return args[1] if len(args) == 2 else NONE
+        # NT._make(iterable): the NamedTuple of the iterable's items
+        if f[0] == "attr" and f[2] == "_make" and f[1][0] == "cls" and len(args) == 1 and not kwargs \
+                and getattr(self.prog.classes.get(f[1][1]), "is_namedtuple", False):
+            names = [fl.name for fl in self.prog.all_fields(f[1][1])]
+            src = args[0]
+            if src[0] in ("tuple", "list") and len(src[1]) == len(names) and not any(x[0] == "starred" for x in src[1]):
+                res = ("tuple", tuple(src[1]))
+            else:
+                res = ("tuple", tuple(("item", src, const(i)) for i in range(len(names))))
+            self._nt_terms[res] = f[1][1]
+            return res
         # calling a functools.partial object calls the wrapped callable with the bound arguments first
         if f[0] == "call" and f[1] == ("ext", "functools.partial") and f[2]:
             return self._call_function(f[2][0], tuple(f[2][1:]) + tuple(args), tuple(f[3]) + tuple(kwargs), site, node, s, fi,
@@ -2146,6 +2262,15 @@ class Engine:
             if name == "len" and len(args) == 1 and args[0][0] in ("tuple", "list") \
                     and not any(e[0] == "starred" for e in args[0][1]):
                 return const(len(args[0][1]))
+            if name == "divmod" and len(args) == 2 and not kwargs and is_const(args[1]) and isinstance(args[1][1], int) \
+                    and not isinstance(args[1][1], bool) and args[1][1] > 0 and args[1][1] & (args[1][1] - 1) == 0:
+                # divmod(a, 2**k) == (a >> k, a & (2**k - 1)) for every int a
+                k = args[1][1].bit_length() - 1
+                return ("tuple", (("binop", ">>", args[0], const(k)), ("binop", "&", args[0], const(args[1][1] - 1))))
+            if name == "getattr" and len(args) == 2 and not kwargs and is_const(args[1]) and isinstance(args[1][1], str) \
+                    and args[1][1].isidentifier():
+                # getattr(x, "name") is x.name
+                return self._load_attr(args[0], args[1][1], node, s, fi, depth, ch)
             if name == "bool" and len(args) == 1:
                 tv = self._decide(args[0], s)
                 if tv is not None:
@@ -2253,6 +2378,9 @@ class Engine:
             return False
         if callee.cls is None:
             return True
+        if callee.cls.qual not in baseline_classes():
+            # a method of a class the rules were not written against (a new private value class): part of its user
+            return True
         ccls = caller.cls if caller is not None else None
         if ccls is None and caller is not None and caller.kind == "nested" and getattr(caller, "parent", None) is not None:
             ccls = caller.parent.cls
@@ -2280,7 +2408,7 @@ class Engine:
         sub.loopdepth = s.loopdepth
         recv_term = recv
         self._bind_params(callee, sub, rc, recv_term, args, kwargs, root=False)
-        key = (ch.prefix(), callee.qual, id(node))
+        key = (ch.prefix(), callee.qual, id(node), s.env.get("$iter"))
         outs = ch.cache.get(key)
         if outs is None:
             self._active.append(callee.qual)
